@@ -11,6 +11,7 @@ from .pool import Pool, sweep_stale
 from .prng import splitmix64
 
 DEFAULT_SEED = 20260921
+MAX_REPORTED = 6
 
 
 def hsh(obj):
@@ -207,11 +208,15 @@ def finish(col, pool, engine_mod_for, coverage_extra=None, assumptions=None, com
     reported = []
     known_seen = []
     nondeterministic = []
+    extra_unconfirmed = []
     for key, (case, v) in sorted(col.violations.items()):
         kf = known_keys.get(key)
         if kf is not None:
             known_seen.append(key)
             print('KNOWN-FINDING: property=%s %s [%s]' % (prop, kf.get('what', ''), key))
+            continue
+        if len(reported) >= MAX_REPORTED:
+            extra_unconfirmed.append(key)
             continue
         eng = engine_mod_for(case)
         small, runs = minimise(pool, eng, case, key, prop)
@@ -284,6 +289,9 @@ def finish(col, pool, engine_mod_for, coverage_extra=None, assumptions=None, com
         print('  key: %s' % key)
         print('  detail: %s' % v.get('detail', '')[:600])
         rc = 1
+    if extra_unconfirmed:
+        print('  (+%d further distinct violation keys of %s not minimised: %s ...)'
+              % (len(extra_unconfirmed), prop, '; '.join(extra_unconfirmed[:5])))
     return rc
 
 
